@@ -384,6 +384,9 @@ def render(case):
         random.Random(lay["perm"]).shuffle(top)
     for e in top:
         root.append(e)
+    if lay.get("decl"):                    # comments inside the document (a parser drops them)
+        root.insert(0, ET.Comment(" generated by the C13 check "))
+        root.insert(len(root) // 2, ET.Comment(' <joint name="ghost" type="revolute"/> '))
     if lay.get("indent"):
         ET.indent(root)
     data = ET.tostring(root, encoding="unicode")
@@ -571,7 +574,9 @@ class _NoCtx:
 
 
 def _failure_key(msg):
-    return msg.split(":")[0]
+    """Kind of failure: the leading words of the message (no numbers, names or values)."""
+    import re
+    return re.match(r"[A-Za-z_ ()./]*", msg).group(0)
 
 
 _PLAIN_LAYOUT = {"perm": 0, "decl": False, "indent": False, "numfmt": "repr", "sep": 0, "distractors": []}
